@@ -1,7 +1,7 @@
 #!/bin/sh
 # usage: tv.sh <TraceModule.tla> <cfg> <tracefile>  -- batch trace validation (debug helper)
 d=$(mktemp -d /tmp/tlcm.XXXXXX)
-TRACE_FILE=$3 timeout ${TLTIMEOUT:-900} java -XX:+UseParallelGC -Xmx8g -Dtlc2.tool.queue.IStateQueue=StateDeque -cp /opt/veriftools/tla/tla2tools.jar:/opt/veriftools/tla/CommunityModules-deps.jar tlc2.TLC -workers 1 -metadir $d -noGenerateSpecTE -config $2 $1 > $d/out.txt 2>&1
+TRACE_FILE=$3 timeout ${TLTIMEOUT:-900} java -XX:+UseParallelGC -Xmx8g -Dtlc2.tool.queue.IStateQueue=StateDeque -Djava.io.tmpdir=$d -cp /opt/veriftools/tla/tla2tools.jar:/opt/veriftools/tla/CommunityModules-deps.jar tlc2.TLC -workers 1 -metadir $d -noGenerateSpecTE -config $2 $1 > $d/out.txt 2>&1
 grep -E "REJECTED|Error|states generated|Finished in|violated" $d/out.txt | head -${TVN:-20}
 if grep -q "Error: Invariant\|Error: Action" $d/out.txt; then /venv/bin/python /verif/harness/tlcshow.py < $d/out.txt | tail -30; fi
 rm -rf $d
